@@ -18,8 +18,8 @@ C(name, exp) == [c |-> name, e |-> exp]
 \* the operation must return `exp`; e.raised = "" and e.obs = exp
 Expect(e, exp) == IF e.raised # "" THEN <<C("must-not-raise", exp)>> ELSE IF e.obs # exp THEN <<C("value", exp)>> ELSE <<>>
 Refuse(e) == IF e.raised = "" THEN <<C("must-raise", "an exception")>> ELSE <<>>
-\* fitting value of an assignment: an int fills the selection from its low bits, a list / Bits must have the selection's length
-AsgVal(o, n) == IF o.t = "i" THEN FromNat(o.v, n) ELSE o.v
+\* fitting value of an assignment: an int fills the selection from its low bits; a list / Bits value has at most the selection's length
+AsgVal(o, n) == IF o.t = "i" THEN FromNat(o.v, n) ELSE Resize(o.v, n)      \* a shorter list / Bits value is zero-extended to the selection
 
 \* expected outcome of a PURE operation e: [raise |-> BOOLEAN, val |-> value]
 R(v) == [raise |-> FALSE, val |-> v]
